@@ -159,16 +159,17 @@ namespace Stam
 
 /-- every live annotation of `s'` is a live annotation of `s` that refers to no more than before -/
 def Sub (s s' : State) : Prop :=
-  ∀ x a', getLive s'.anns x = some a' → ∃ a, getLive s.anns x = some a ∧ ∀ k ∈ a'.fwd, k ∈ a.fwd
+  ∀ x a', getLive s'.anns x = some a' → ∃ a, getLive s.anns x = some a ∧ a'.id = a.id ∧ a'.target = a.target ∧
+    ∀ k ∈ a'.fwd, k ∈ a.fwd
 
-theorem Sub.refl (s : State) : Sub s s := fun _ a h => ⟨a, h, fun _ hk => hk⟩
+theorem Sub.refl (s : State) : Sub s s := fun _ a h => ⟨a, h, rfl, rfl, fun _ hk => hk⟩
 theorem Sub.trans {s s1 s2 : State} (h1 : Sub s s1) (h2 : Sub s1 s2) : Sub s s2 := by
   intro x a2 hx
-  obtain ⟨a1, ha1, hk1⟩ := h2 x a2 hx
-  obtain ⟨a, ha, hk⟩ := h1 x a1 ha1
-  exact ⟨a, ha, fun k hk2 => hk k (hk1 k hk2)⟩
+  obtain ⟨a1, ha1, e1, e2, hk1⟩ := h2 x a2 hx
+  obtain ⟨a, ha, e3, e4, hk⟩ := h1 x a1 ha1
+  exact ⟨a, ha, e1.trans e3, e2.trans e4, fun k hk2 => hk k (hk1 k hk2)⟩
 theorem Sub.of_mono {s s' : State} (h : ∀ x a, getLive s'.anns x = some a → getLive s.anns x = some a) : Sub s s' :=
-  fun x a hx => ⟨a, h x a hx, fun _ hk => hk⟩
+  fun x a hx => ⟨a, h x a hx, rfl, rfl, fun _ hk => hk⟩
 
 theorem fwd_filter_data (a : AnnM) (sh dh : Nat) (k : Key) :
     k ∈ ({ a with data := a.data.filter (fun p => !(p.1 == sh && p.2 == dh)) } : AnnM).fwd ↔
@@ -241,9 +242,9 @@ theorem dropData_spec (s s' : State) (sh dh : Nat) (strict : Bool) (ah : Nat) (h
           by_cases hc : ah = x ∧ ah < s.anns.length
           · rw [if_pos hc] at hx; cases hx
             obtain ⟨hc1, _⟩ := hc; subst hc1
-            exact ⟨a, hl, fun k hk => ((fwd_filter_data a sh dh k).1 hk).1⟩
+            exact ⟨a, hl, rfl, rfl, fun k hk => ((fwd_filter_data a sh dh k).1 hk).1⟩
           · rw [if_neg hc] at hx
-            exact ⟨a', hx, fun _ hk => hk⟩
+            exact ⟨a', hx, rfl, rfl, fun _ hk => hk⟩
         · intro a' ha'
           simp only [] at ha'
           rw [getLive_setAt] at ha'
@@ -277,7 +278,7 @@ theorem foldDrop_spec (sh dh : Nat) (strict : Bool) : ∀ (us : List Nat) (s s' 
       simp only [List.mem_cons] at hx
       rcases hx with hx | hx
       · subst hx
-        obtain ⟨a1, ha1, hk⟩ := i2 x a' ha'
+        obtain ⟨a1, ha1, _, _, hk⟩ := i2 x a' ha'
         intro hc
         exact d3 a1 ha1 (hk _ hc)
       · exact i3 x hx a' ha'
